@@ -114,7 +114,12 @@ def _run_variant(args):
     try:
         repo = Repo(root, overlay)
         rep = Report(prop, "selftest")
-        mod.run(repo, rep)
+        try:
+            mod.run(repo, rep)
+        except AnalysisError:
+            # a violation reported before a later rule gave up stands (same policy as the driver)
+            if not any(f.key() not in clean_keys for f in rep.findings):
+                raise
         keys = {f.key(): f for f in rep.findings}
         new = {k: f for k, f in keys.items() if k not in clean_keys}
         res["new_findings"] = [f"[{k[0]}] {k[1]}: {k[2][:80]}" for k in sorted(new)][:8]
